@@ -61,9 +61,8 @@ def _remove_at(eng, st, lst, idx, node):
         for j in range(idxv.as_long(), lnv.as_long() - 1):
             new = z3.Store(new, j, z3.Select(el, j + 1))
     else:
-        new = fresh("del", el.sort())
         j = z3.Int(f"j!{next(_fresh)}")
-        st.assume(z3.ForAll([j], z3.Select(new, j) == z3.If(j < idx, z3.Select(el, j), z3.Select(el, j + 1))))
+        new = z3.Lambda([j], z3.If(j < idx, z3.Select(el, j), z3.Select(el, j + 1)))
     eng.set_list(st, lst, z3.simplify(ln - 1), new, node)
 
 
@@ -102,10 +101,8 @@ def _concat_arrays(eng, st, e1, n1, e2, n2):
         for j in range(n2v.as_long()):
             new = z3.Store(new, z3.simplify(n1 + j), z3.Select(e2, j))
         return new
-    new = fresh("cat", e1.sort())
     j = z3.Int(f"j!{next(_fresh)}")
-    st.assume(z3.ForAll([j], z3.Select(new, j) == z3.If(j < n1, z3.Select(e1, j), z3.Select(e2, j - n1))))
-    return new
+    return z3.Lambda([j], z3.If(j < n1, z3.Select(e1, j), z3.Select(e2, j - n1)))
 
 
 @external("list.__iadd__")
@@ -317,8 +314,7 @@ def _elementwise(eng, st, arr, rhs, opname, reverse=False):
             xj = z3.ToReal(xj)
     a_, b_ = (rj, xj) if reverse else (xj, rj)
     val = {"Add": lambda: a_ + b_, "Sub": lambda: a_ - b_, "Mult": lambda: a_ * b_, "Div": lambda: a_ / b_}[opname]()
-    new = fresh("npop", elem_array_sort(res_sort))
-    st.assume(z3.ForAll([j], z3.Select(new, j) == val))
+    new = z3.Lambda([j], val)
     if opname == "Div":
         eng.assumption_log.add("numpy division by zero is an unspecified real (no inf/nan)")
     return new, n, res_sort, rj
@@ -423,8 +419,7 @@ def rng_choice(eng, st, node, a, kw, k, ctx):
     st.ghost["ghost.last_p"] = V(("map", INT, REAL), pel)
     st.ghost["ghost.last_n"] = V(INT, n_a)
     cj = z3.Int(f"c!{next(_fresh)}")
-    lc_arr = fresh("cand", z3.ArraySort(z3.IntSort(), z3.IntSort()))
-    st.assume(z3.ForAll([cj], z3.Select(lc_arr, cj) == at(cj)))
+    lc_arr = z3.Lambda([cj], at(cj))
     st.ghost["ghost.last_cand"] = V(("map", INT, INT), lc_arr)
     st.ghost["ghost.last_pick"] = V(INT, kx)
     st.ghost["ghost.last_rng"] = V(Opaque("Generator"), rng.t)
